@@ -2,7 +2,7 @@ CFG = {
     "id": "C12",
     "lean_theorems": "LeptosModel.Theorems.C12",
     "lean_exe": "lm_c12",
-    "extract": ["Transfer"],
+    "extract": ["Transfer", "Base64"],
     "theorems": [
         # round trip js_string -> JS string literal: FULL (every string, every site, every Unicode table)
         "Leptos.Transfer.C12_roundtrip",
@@ -39,6 +39,16 @@ CFG = {
         "Leptos.Transfer.C12_incomplete_chunk_transfer",
         "Leptos.Transfer.C12_read_back_single",
         "Leptos.Transfer.parseNat_decDigits",
+        # codec layer: text form of a value decodes to the value (empty included); base64 engines tied to the source
+        "Leptos.Transfer.b64_roundtrip",
+        "Leptos.Transfer.C12_bytes_roundtrip",
+        "Leptos.Transfer.C12_str_codec_roundtrip",
+        "Leptos.Transfer.C12_empty_value_arrives",
+        "Leptos.Transfer.C12_base64_matches_source",
+        "Leptos.Transfer.b64_urlsafe_differs",
+        # the other server exit: consume_buffers pairs ids with values for every completion order
+        "Leptos.Transfer.C12_consume_pairs",
+        "Leptos.Transfer.consumeRun_view",
         # JSON codec end to end
         "Leptos.Transfer.C12_json_string_roundtrip",
         "Leptos.Transfer.jsonStrDecode_encode",
@@ -53,16 +63,19 @@ CFG = {
     "harness_bin": "c12",
     "n": {"quick": 8000, "thorough": 400000},
     "trivial_tags": ["plain", "alnum", "str", "stream", "lit-data", "lit-error", "error", "json"],
-    "rule": "seeded generator: (a) streaming sessions on the real SsrSharedContext — 1-5 values (Str / JSON via serde_json / "
-            "unpadded base64 of random bytes, encoded by the real codee + leptos_server traits), errors before and during the stream, "
-            "seal_errors, incomplete chunks, is_hydrating toggles and islands mode, every completion order when <= 4 values are "
-            "registered (one case per permutation, 1 in 4 sessions) else a random order, bursts of completions between polls; "
-            "(b) single-literal sessions `lit d|e` and `jsonenc` (real JsonSerdeCodec::encode -> data site -> browser twin -> real decode); (c) id programs over {next_id, set_is_hydrating(true/false)}: exhaustive up to "
-            "length 5 for both constructors plus random longer ones; (d) browser-twin-only ops (`js`, `tok`) comparing the two "
-            "independent decoders/tokenizers. Strings: atoms < > / ! - \" ' \\ NUL digits U+2028 U+2029 U+FEFF </script <!-- <script "
-            "--> \\u003c ... mixed with arbitrary code points of the documented alphabet (1 case in 5 is sanitised to avoid '<' and "
-            "NUL+octal, the inputs of the repaired defects F-C12-1/2/3; all other cases may contain them). distinct = distinct op lines of the case; non-trivial = a case with a tag beyond the "
-            "bare op kinds (nul, lt, markup pattern, unicode, control, quote/backslash, toggles, seal, incomplete, ids, twin).",
+    "rule": "seeded generator: (a) sessions on the real SsrSharedContext (behind a forwarding spy) with 1-5 values; every value is a "
+            "(kind, carrier) pair: kinds = String/FromToStringCodec, String/JsonSerdeCodec, serde_json::Value/JsonSerdeCodec, String/SerdeLite, "
+            "String/MiniserdeCodec, Vec<u8>/custom binary codec, String and i64/RkyvCodec (binary kinds travel as base64; byte payloads include all 64 "
+            "sextets, 0xfb/0xff bytes, empty, </script> U+2028 NUL); carriers = write_async by hand, the REAL ArcResource / Resource / ArcOnceResource / "
+            "OnceResource / SharedValue (loads completed by the schedule ops on a controlled executor); errors before and during the stream, seal_errors, "
+            "incomplete chunks, is_hydrating toggles, islands mode; every completion order when <= 4 values are pending (1 session in 4) else a random "
+            "order; the server exit is the pending_data() stream (3 in 4) or consume_buffers() (1 in 4), both polled by hand; every session ends with "
+            "`hydrate`: the same carriers are created again, in the same order, on a client whose shared context serves ids from the real "
+            "HydrateSharedContext and read_data from what the browser twin evaluated out of the real script text (or from the consume_buffers pairs) "
+            "-- oracle: every client carrier starts with the server's value and no client-side load runs; (b) single-literal sessions `lit d|e`, `jsonenc`; "
+            "(c) id programs over {next_id, set_is_hydrating}: exhaustive up to length 5 for both constructors plus random longer ones; (d) browser-twin-only "
+            "ops (`js`, `tok`). Strings: atoms < > / ! - \" ' \\ NUL digits U+2028 U+2029 U+FEFF </script <!-- <script --> \\u003c ... and arbitrary code "
+            "points of the documented alphabet; 1 value in 8 is empty. distinct = distinct op lines of the case; non-trivial = a case with a tag beyond the bare op kinds.",
     "trusted": [
         "the browser is modelled, not run: ECMA-262 string literals (sloppy mode, Annex B legacy octal) and the WHATWG script-data "
         "tokenizer states, written twice from the specifications (Lean model, Rust twin) and compared on every run; both were "
@@ -71,13 +84,19 @@ CFG = {
         "(proved for every instantiation); the model driver instantiates them on a documented alphabet that the generator "
         "re-validates against the running toolchain's {:?}",
         "futures::stream::{once, Chain} (modelled: Chain polls its second stream in the same poll_next call in which the first ends)",
-        "serde_json / codee / base64 crates (used as the codec-level read-back oracle for JSON and as encoders in the generator)",
+        "serde_json / codee (JsonSerdeCodec, SerdeLite, MiniserdeCodec, RkyvCodec) / rkyv / miniserde / serde-lite: the codecs themselves are run, not modelled "
+        "(the model takes their encoded form from the op and checks the real encoder reproduces it); base64 crate: modelled (b64Enc/b64Dec), alphabet and "
+        "padding configuration extracted from the pinned crate source",
+        "reactive_graph (Owner, ArcAsyncDerived) and hx_common::sched as the executor under the real resources",
+        "extract.py Base64 (regexes over leptos_server/src/lib.rs and the base64 crate in the cargo registry; fails closed)",
         "extract.py Transfer (regexes over hydration_context/src/ssr.rs; fails closed)",
     ],
     "modelled": [
         "<str as Debug>::fmt / char::escape_debug_ext / EscapeUnicode",
         "SsrSharedContext::{next_id, write_async, register_error, seal_errors, set_incomplete_chunk, pending_data}, AsyncDataStream::poll_next, ResolvedData::write_to_buf",
         "HydrateSharedContext::next_id (native build of the browser feature)",
+        "SsrSharedContext::consume_buffers; leptos_server IntoEncodedString/FromEncodedStr (String identity, Vec<u8> base64)",
+        "the client-side initial_value path of ArcResource/Resource/ArcOnceResource/OnceResource and SharedValue::new_with_encoding, observed on the real types (status ok/wrong/none + load count), predicted by the model from the transferred map",
         "integrations/utils build_response: <script>{chunk}</script> (no nonce)",
         "ECMAScript StringLiteral evaluation; array/assignment/push statements; WHATWG tokenizer script-data states",
     ],
